@@ -231,6 +231,21 @@ def oracle(run, name, idnt, fit_state):
             fail("unfitted", f"no successful fit but {bad} are not NaN",
                  "C17_unfitted_nan")
         return v
+    # the contact-point criterion is a statement about the approach data and
+    # the fitted contact point alone (not about the interval that was fitted)
+    xax_ = idnt.fit_properties.get("x_axis", "tip position")
+    if xax_ in idnt.columns and not math.isnan(v["feat_bin_cp_position"]):
+        xa_ = np.asarray(idnt[xax_])[np.asarray(idnt["segment"]) == 0]
+        cp_ = float(idnt.fit_properties["params_fitted"][
+            "contact_point"].value)
+        want_ = float(np.min(xa_) <= cp_ <= np.max(xa_))
+        if v["feat_bin_cp_position"] != want_:
+            fail("cp_position", f"feat_bin_cp_position = "
+                 f"{v['feat_bin_cp_position']} with the contact point "
+                 f"{cp_!r} and approach data in [{float(np.min(xa_))!r}, "
+                 f"{float(np.max(xa_))!r}] (fitted interval "
+                 f"[{idnt.fit_properties.get('xmin')!r}, "
+                 f"{idnt.fit_properties.get('xmax')!r}])", "C17_guards")
     # single names / subsets pair with their names
     rng = run.rng
     sub = sorted(rng.sample(names, 5))
@@ -710,6 +725,21 @@ def check(run):
                                                   **kw)
                 states["fitted-with-correction-factor"] = fitted(
                     cols, k, gcf_k=0.5, **kw)
+                # only the deeper part of the indentation fitted, contact
+                # point held fixed outside the fitted interval
+                dp = curves.make_indentation(cols, k=k)
+                dp.apply_preprocessing(list(PIPE))
+                mk_ = kw.get("model_key", "hertz_para")
+                p_ = dp.get_initial_fit_parameters(model_key=mk_)
+                p_["contact_point"].set(value=0.0, vary=False)
+                xa_ = np.asarray(dp["tip position"])[
+                    np.asarray(dp["segment"]) == 0]
+                lo_ = float(np.min(xa_))
+                if lo_ < 0:
+                    dp.fit_model(**({"model_key": mk_} | kw | dict(
+                        params_initial=p_, range_type="absolute",
+                        range_x=[1.2 * lo_, 0.3 * lo_])))
+                    states["fitted-deep-part-fixed-contact-point"] = dp
                 if run.tier != "quick":
                     states["fitted-weighted"] = fitted(
                         cols, k, weight_cp=5e-7, range_x=[-2e-6, 2e-6], **kw)
